@@ -492,6 +492,10 @@ pub fn run(thorough: bool) -> Report {
             (vec!["10 : PRINT Q", "20 :: GOTO 40", "30 PRINT 3", "40 :"], vec![10, 20, 40], vec![("Use of undeclared variable 'Q'.", 10)]),
             // the same variable read twice in one statement, and once per iteration of a loop
             (vec!["10 PRINT Q + Q"], vec![10], vec![("Use of undeclared variable 'Q'.", 10), ("Use of undeclared variable 'Q'.", 10)]),
+            // a scalar and an array of the same name are unrelated; assigning the empty string is assigning
+            (vec!["10 DIM A(5)", "20 PRINT A"], vec![10, 20], vec![("Use of undeclared variable 'A'.", 20)]),
+            (vec!["10 A = 3", "20 A(A) = 4"], vec![10, 20], vec![("Use of undeclared array 'A'.", 20)]),
+            (vec!["10 S$ = \"\"", "20 PRINT S$;\"x\"", "30 READ N$: PRINT N$", "40 DATA \"\""], vec![10, 20, 30, 40], vec![]),
             (vec!["10 FOR I=1 TO 3", "20 Y = Q", "30 NEXT I"], vec![10, 20, 30, 20, 30, 20, 30], vec![("Use of undeclared variable 'Q'.", 20), ("Use of undeclared variable 'Q'.", 20), ("Use of undeclared variable 'Q'.", 20)]),
         ];
         let mut acc = Acc::default();
